@@ -283,6 +283,11 @@ func famC09(g *Gen, o *Out, n int, thorough bool) {
 				res, panicked, alloc, dur := guarded(func() string { return runEntry(ep, ro, input, seq) })
 				// allocation bound: the configured limits plus an amount proportional to the input
 				bound := ro.mh + ro.ms + 4096*uint64(len(input)) + (4 << 20)
+				if ep == "root" {
+					// the root module's reader takes no options: its limit is the built-in
+					// util.MaxAllowedSectionSize (32 MiB), not the limits of this line
+					bound = (32 << 20) + 4096*uint64(len(input)) + (4 << 20)
+				}
 				line := fmt.Sprintf("parse ep=%s %s in=%s", ep, ro, hexOr(input))
 				o.Line(line, fmt.Sprintf("%s panic=%d allocok=%d slow=%d _alloc=%d", res, b2i(panicked), b2i(alloc <= bound), b2i(dur > 5*time.Second), alloc))
 				o.Count(ep)
@@ -322,6 +327,9 @@ func famC09(g *Gen, o *Out, n int, thorough bool) {
 					os.WriteFile(lastCase, []byte(fmt.Sprintf("ep=%s %s in=%s\n", ep, r2, hex.EncodeToString(arch))), 0o644)
 					res, panicked, alloc, _ := guarded(func() string { return runEntry(ep, r2, arch, seq) })
 					bound := r2.mh + r2.ms + 4096*uint64(len(arch)) + (4 << 20)
+					if ep == "root" {
+						bound = (32 << 20) + 4096*uint64(len(arch)) + (4 << 20)
+					}
 					lim := "none"
 					if strings.Contains(res, "hdrtoolarge") {
 						lim = "hdr"
